@@ -5,9 +5,11 @@
 EXTENDS EventSigs, Json
 
 VersionsAll == AllVersions
+\* one room version per (ID format, key-validity rule, restricted joins, domainless) class
+SourceVersionsQuick == {"2", "4", "6", "11", "12"}
 
 Emit ==
     Done => PrintT(ToJson([ver |-> ver, kind |-> ev.kind, via |-> ev.via, tsrv |-> ev.tsrv, asrv |-> ev.asrv,
-                           esrv |-> ev.esrv, tm |-> tm, sig |-> sig, required |-> R,
+                           esrv |-> ev.esrv, tm |-> tm, sig |-> sig, src |-> src, vol |-> vol, required |-> R,
                            strict |-> StrictKeyValidity(ver), verdict |-> verdict]))
 =============================================================================
